@@ -152,6 +152,11 @@ func (s *Service) Subscribe(ctx context.Context, ns libshare.Namespace) (<-chan 
 						// operation successful, break the loop
 						break
 					}
+					if s.ctx.Err() != nil {
+						// service is stopping: do not keep retrying a failing retrieval forever
+						log.Debugw("blobsub: canceling subscription due to service ctx closing", "namespace", ns.ID())
+						return
+					}
 				}
 
 				select {
